@@ -457,8 +457,45 @@ def fixed_cases():
     ]
 
 
+def dead_rx_case(rng):
+    """The C06-e1 shape: a (counted) connection ends after some of the installed protocols have shut down — their
+    receivers are gone, telling them fails — in every close path of the loop, directly or through the real accept
+    future. The manager must be told all the same (it releases the connection's slot only then), exactly once."""
+    ka = kinds(rng)
+    n = len(ka)
+    via = rng.random() < 0.3
+    head = f"conn ka={ka}" + (f" cap={rng.choice([1, 2, 64])}" if rng.random() < 0.3 else "") + (" via=accept" if via else "")
+    ops = [head]
+    gone = [i for i in range(n) if rng.random() < 0.6] or [rng.randrange(n)]
+    early = via and rng.random() < 0.4
+    if early:
+        ops += [f"drop_rx {i}" for i in gone]
+    if via:
+        ops.append("accept")
+    for _ in range(rng.randrange(3)):
+        i = rng.randrange(n)
+        ops.append(rng.choice([f"remote_open {i} full", f"local_open {i}", "run", f"downgrade {i}", f"upgrade {i}"]))
+    if not early:
+        ops += [f"drop_rx {i}" for i in gone]
+    if rng.random() < 0.3:
+        ops.append("run")
+    ops += close_cause(rng, n) + ["run", "run"]
+    return ops
+
+
 def gen_cases(rng, tier, focus=None):
     """`focus`: "C07" / "C09" shifts the mix towards that property's shapes."""
+    if focus == "C06":
+        # the manager's view of a connection's end (no real-time holds): every close path, with and without protocols
+        # that have shut down, directly and through the real accept future
+        n_dead = {"quick": 60, "thorough": 1500, "search": 100}[tier]
+        n_acc = {"quick": 20, "thorough": 400, "search": 30}[tier]
+        n_rand = {"quick": 50, "thorough": 1500, "search": 80}[tier]
+        cases = [list(c) for c in fixed_cases() if not any(op.startswith("sleep") for op in c)]
+        cases += [dead_rx_case(rng) for _ in range(n_dead)]
+        cases += [accept_case(rng) for _ in range(n_acc)]
+        cases += [random_case(rng, rng.choice([5, 8, 12])) for _ in range(n_rand)]
+        return cases
     n_race = {"quick": 24, "thorough": 400, "search": 40}[tier]
     n_span = {"quick": 60, "thorough": 1500, "search": 100}[tier]
     n_rand = {"quick": 220, "thorough": 6000, "search": 300}[tier]
@@ -698,6 +735,52 @@ def oracle_c07(case, out):
                 v("established-not-closed", f"accepting the connection failed (the connection was dropped, no connection task "
                   f"exists) after protocol(s) {owed} had been told that it was established: they are never told that it closed", i)
                 return bad
+    return bad
+
+
+# ------------------------------------------------------------------------------------------ oracle C06
+
+def oracle_c06(case, out):
+    """Capacity is released exactly when a counted connection closes: the transport manager releases the slot of a
+    connection when — and only when — the connection's `ProtocolSet` tells it `ConnectionClosed`. So: once the connection
+    task has returned, the manager has been told exactly once (a manager that is busy gets it when it catches up),
+    WHATEVER became of the installed protocols meanwhile; it is never told twice (a second report would release the slot
+    of whoever was given the id next... and is a double release) and never before the task exists."""
+    bad = []
+
+    def v(kind, msg, i):
+        bad.append({"kind": kind, "msg": msg, "step": i, "op": case[i], "out": out[i] if i < len(out) else None})
+
+    mgr = 0
+    mgr_paused = False
+    dead = set()
+    for i, op in enumerate(case):
+        if i >= len(out):
+            break
+        o = out[i]
+        t = op.split()
+        if o.startswith("panic") or o in ("skipped", "inconclusive"):
+            return bad
+        if o == "bad-op" or t[0] == "arrange_race":
+            continue
+        d = parse(o)
+        if d is None:
+            continue
+        if t[0] in ("pause", "resume") and d["ret"] == "ok" and t[1:] == ["m"]:
+            mgr_paused = t[0] == "pause"
+        dead |= d.get("dead", set())
+        mgr += d.get("m", []).count("C")
+        if mgr > 1:
+            v("released-twice", f"the manager was told {mgr} times that the connection closed: its slot is released twice", i)
+            return bad
+        if d["loop"] in ("parked", "accepting") and mgr:
+            v("released-early", "the manager was told that the connection closed before its task was started", i)
+            return bad
+        if d["loop"] in EXITED and mgr != 1 and not mgr_paused:
+            gone = f" (protocol(s) {sorted(dead)} had shut down before)" if dead else ""
+            v("slot-leaked", f"the connection task has returned ({d['loop']}){gone} but the manager was never told that the "
+              "connection closed: its slot in the connection limits is never released", i)
+            return bad
     return bad
 
 
